@@ -80,11 +80,17 @@ func zxMapEq(x, y map[string]float64) bool {
 // the inserts up to the recovered offset, each once; field a keeps its values across the
 // alteration; field b holds exactly the values of the points processed after the alteration.
 //
-//zx:harness prop=C15+C02+C03 id=P tier=quick env=fs shard=script:6 maxops=60 thorough.maxops=120
+//zx:harness prop=C15+C02+C03 id=P tier=quick env=fs shard=script:6,redefine:2 maxops=60 thorough.maxops=120
 func zxC15ProcessInserts() {
 	zxFSReset()
 	oldFields := core.Fields{core.PointsField, zxFieldA}
 	newFields := core.Fields{core.PointsField, zxFieldA, zxFieldB}
+	if vrtShape("redefine", 2) == 1 {
+		// the alteration keeps the name b but changes its definition: a removal plus an addition,
+		// the new b starts empty although the old b has values in memory and on disk
+		oldFields = core.Fields{core.PointsField, zxFieldA, zxFieldB}
+		newFields = core.Fields{core.PointsField, zxFieldA, zxFieldB2}
+	}
 	t, rs := zxTable(oldFields)
 	rs.inserts = make(chan *insert)
 	rs.fieldUpdates = make(chan core.Fields)
@@ -182,6 +188,23 @@ func zxC15ProcessInserts() {
 	if !crashed {
 		vrtAssert(got.offs == inserts[len(inserts)-1].seq, "after a clean stop everything processed is on disk")
 	}
+	// progress that a completed forced flush has made durable is never taken back: a restart must
+	// not resume before the last entry processed ahead of that flush (an entry that the WHERE in
+	// force at the time rejected would otherwise be judged again, by a WHERE changed since)
+	completed := len(rs.forceFlushCompletes)
+	durable, lastSeq, nFlush := int64(0), int64(0), 0
+	for _, m := range script {
+		switch m.kind {
+		case "insert", "skip":
+			lastSeq = m.seq
+		case "flush":
+			nFlush++
+			if nFlush <= completed {
+				durable = lastSeq
+			}
+		}
+	}
+	vrtAssert(got.offs >= durable, "a restart does not resume before the entries covered by a completed flush (script "+zxItoa(scriptIdx)+", "+zxItoa(completed)+" completed flushes, crash step "+zxItoa(crashAt)+")")
 	vrtAssert(zxMapEq(got.a, want.a), "field a on disk = fold of exactly the inserts up to the recovered offset (script "+zxItoa(scriptIdx)+", crash step "+zxItoa(crashAt)+")")
 	vrtAssert(zxMapEq(got.b, want.b), "field b on disk = fold of exactly the inserts processed after the alteration, up to the recovered offset (crash step "+zxItoa(crashAt)+")")
 	vrtReach("P")
